@@ -40,6 +40,16 @@ CHECKS = {
         text="PRNG histories (8..40 operations, 3..5 nodes, 2..4 topics; loud with real disc.Member, barrier and silent mode) of successful, too-few-callers and cancelled KeyGen/Sign calls, cancellation with the continuation parked at a verif point, Sign re-issued the moment the previous one returned (continuation held after the result hand-off), two topics at once, duplicate Sign on a live topic (first session must survive), replay of a finished session's whole traffic (no hand-over, no transmission may result), traffic of a member outside the session and of a non-member during a live session (exactly-once hand-over must still hold). A 'Programming error' panic kills the child and is reported by the parent.",
         note="Trusted: harness recorder/network; silent-mode histories use fresh topics, re-use in silent mode is decided by the c12silent unit whose two failures are recorded as known findings (no small sound repair). Deadlines are watchdogs: a history that hits one is replayed with 5x deadlines before being judged.",
         design="2/C12"),
+    "C07": dict(level="exploration", engine="hcore",
+        technique="runtime monitoring of real disc.Member objects on a disc-level network: list-validity, pairwise-agreement, exactly-once-continuation and bounded-progress oracles over honest sessions and targeted Byzantine plans built from real Member instances (filtered inputs, re-routed outputs, replays)",
+        text="Honest sessions over universes of 2..12 members, participant subsets and identifiers from the whole 16-bit range: exactly-expected callers must all complete with identical valid lists (bounded progress, watchdog + replay), fewer must all fail without continuation, more are judged by the two-outcome, validity and agreement oracles only. Byzantine members are real Member instances under one identifier with filtered inputs and re-routed outputs: partition-and-lie, shadow coalition with a phantom of a silent member (its acknowledgements are re-routed to the honest members), two-faced, replaying outsider/member, response flood. Evidence counts honest completions under attack; a floor requires them.",
+        note="Trusted: harness network (per-link FIFO, true origin), the plans (targeted, not exhaustive). Unbounded liveness is restated as completion within a generous deadline with a replay at 5x before judging.",
+        design="2/C07"),
+    "C13": dict(level="exploration", engine="hcore",
+        technique="runtime monitoring: completion + exactly-once totality oracle on scripted full-stack sessions whose identifiers are drawn along the byte boundaries of the 16-bit range (all pairs/triples in thorough), rounds 0..127, loud and silent mode",
+        text="Sessions of size 2 and 3 (3 makes acknowledgements matter) with node = party identifiers from {0,1,2,127,128,254,255,256,257,511,512,513,32767,32768,65279,65280,65534,65535} and PRNG identifiers elsewhere; key generation then signing with two rounds cycling through 0..127; every session must complete and hand every message over exactly once, i.e. every identifier, view, round and digest one party encoded was decoded to the same value by its peers.",
+        note="Trusted: harness recorder/network. Serialisation round trips of key material (BLS/PS/EdDSA) are the crypto drivers' part (added to this check when built).",
+        design="2/C13"),
 }
 
 NOT_YET = {}
